@@ -198,8 +198,9 @@ def recursion(ctx):
 class _Touched(paths.Domain):
     """value = frozenset of condition variables modified on this path."""
 
-    def __init__(self, names):
+    def __init__(self, names, input_derived=()):
         self.names = names
+        self.input_derived = set(input_derived)
 
     def _hit(self, target):
         t = norm(target)
@@ -209,6 +210,40 @@ class _Touched(paths.Domain):
                 out.add(n)
         return out
 
+    def _positive(self, e, v):
+        if is_const(e):
+            try:
+                return const(e) > 0
+            except TypeError:
+                return True
+        t = norm(e)
+        if ('+', t) in v:
+            return True
+        if isinstance(e, (ast.Name, ast.Attribute)):
+            # only amounts read straight from received bytes can be 0 without a guard
+            return t not in self.input_derived
+        if isinstance(e, ast.Call) and call_attr(e) == 'max' and any(is_const(a) and const(a) > 0 for a in e.args):
+            return True
+        if isinstance(e, ast.BinOp) and isinstance(e.op, ast.Add):
+            return self._positive(e.left, v) or self._positive(e.right, v)
+        if isinstance(e, ast.BinOp) and isinstance(e.op, ast.Mult):
+            return self._positive(e.left, v) and self._positive(e.right, v)
+        return True
+
+    def assume(self, atom, truth, v):
+        t = norm(atom)
+        import re as _re
+        facts = set()
+        m = _re.match(r'^(.+) > 0$', t) or _re.match(r'^(.+) >= 1$', t) or _re.match(r'^(.+) != 0$', t)
+        if m and truth:
+            facts.add(('+', m.group(1)))
+        m = _re.match(r'^(.+) == 0$', t) or _re.match(r'^(.+) <= 0$', t) or _re.match(r'^not (.+)$', t)
+        if m and not truth:
+            facts.add(('+', m.group(1)))
+        if truth and isinstance(atom, (ast.Name, ast.Attribute)):
+            facts.add(('+', t))
+        return (v | frozenset(facts),)
+
     def event(self, node, v):
         hit = set()
         if isinstance(node, ast.Assign):
@@ -216,7 +251,10 @@ class _Touched(paths.Domain):
                 for e in (t.elts if isinstance(t, (ast.Tuple, ast.List)) else [t]):
                     hit |= self._hit(e)
         elif isinstance(node, ast.AugAssign):
-            hit |= self._hit(node.target)
+            h = self._hit(node.target)
+            if h and isinstance(node.op, (ast.Add, ast.Sub)) and not self._positive(node.value, v):
+                h = set()  # `x += e` with e possibly 0 is not progress
+            hit |= h
         elif isinstance(node, ast.Delete):
             for t in node.targets:
                 hit |= self._hit(t)
@@ -281,15 +319,28 @@ def loops(ctx):
                 if not names:
                     continue
                 n += 1
-                it = paths.Interp(_Touched(sorted(names)))
+                derived = set()
+                for s_ in walk_local(lp):
+                    if isinstance(s_, ast.Assign) and len(s_.targets) == 1:
+                        v_ = s_.value
+                        while isinstance(v_, ast.Subscript) and isinstance(v_.value, ast.Call):
+                            v_ = v_.value  # struct.unpack_from(...)[0]
+                        if (isinstance(v_, ast.Subscript) and not isinstance(v_.slice, ast.Slice)) or (isinstance(v_, ast.Call) and (dotted(v_.func) or '').startswith('struct.unpack')):
+                            for t_ in (s_.targets[0].elts if isinstance(s_.targets[0], ast.Tuple) else [s_.targets[0]]):
+                                derived.add(norm(t_))
+                names -= derived  # values re-read from the input each iteration are not progress
+                if not names:
+                    continue
+                it = paths.Interp(_Touched(sorted(names), derived))
                 it.sinks.append({})
                 try:
-                    out = it.block(lp.body, {frozenset(): ()})
+                    entry, _f = it.branch(lp.test, {frozenset(): ()})
+                    out = it.block(lp.body, entry or {frozenset(): ()})
                 except Exception as e:  # pragma: no cover
                     R.skip(rule, key, f'not analysed: {e}', p.loc(lp))
                     continue
                 back = paths.join(out.get('fall', {}), out.get('continue', {}))
-                stuck = [w for v, w in back.items() if not v]
+                stuck = [w for v, w in back.items() if not any(not isinstance(x, tuple) for x in v)]
                 R.check(not stuck, rule, key + f' @{lp.lineno}', f'every back edge modifies one of {sorted(names)}',
                         f'a path through the loop body reaches the next iteration without changing any of {sorted(names)}: on that input the loop never ends (via {" ".join(stuck[0]) if stuck else ""})', p.loc(lp))
     R.extra['while_loops'] = {'conditioned': n, 'while_true': n_true}
@@ -388,6 +439,10 @@ def locks(ctx):
                     elsewhere = []
                     if ci is not None and not rel:
                         elsewhere = [mn2 for mn2, m2 in ci.methods.items() if m2 is not fn and any(call_attr(x) == 'release' and norm(x.func.value) == recv for x in calls_in(m2))]
+                        # mutex-style use (some method acquires and releases it itself): every acquirer must release
+                        mutex = any(any(call_attr(x) == 'acquire' and norm(x.func.value) == recv for x in calls_in(m2)) and any(call_attr(x) == 'release' and norm(x.func.value) == recv for x in calls_in(m2)) for m2 in ci.methods.values())
+                        if mutex:
+                            elsewhere = []
                     if elsewhere:
                         R.ok(rule, f'{p.qual_of(fn)} | {recv}.acquire()', f'credit-style semaphore: released by {sorted(elsewhere)} when the awaited event arrives', p.loc(c))
                         continue
